@@ -21,6 +21,7 @@ DESC:
 """
 import copy
 import hashlib
+import io
 import json
 import os
 import sys
@@ -362,6 +363,10 @@ class World:
                 (d / f'step{len(steps)}').write_text('done')
                 if fault == 'raise_partial':
                     raise Fault('continues raise_partial')
+            if kind == 'dir':
+                # attempt-specific file: a directory result must be built from a clean work directory, so output left
+                # behind by a dead earlier attempt must never show up in the published result
+                (d / f'attempt_{payload["gen"]}').write_text('a')
             (d / 'sub').mkdir(exist_ok=True)
             (d / 'sub' / 'x.txt').write_text('x' * 10)
             if fault == 'raise_partial':
@@ -422,9 +427,13 @@ class World:
             d = Path(value)
             names = sorted(str(x.relative_to(d)) for x in d.rglob('*'))
             want = ['sub', 'sub/x.txt', 'term.json'] + ([n for n in names if n.startswith('step')] if kind == 'continues' else [])
+            if kind == 'dir':
+                want += [n for n in names if n.startswith('attempt_')][:1]
             if sorted(names) != sorted(want) or (d / 'sub' / 'x.txt').read_text() != 'x' * 10:
-                raise ValueError(f'directory payload incomplete: {names}')
+                raise ValueError(f'directory payload incomplete or polluted: {names}')
             p = json.loads((d / 'term.json').read_bytes().decode('utf-8'))
+            if kind == 'dir' and f'attempt_{p.get("gen")}' not in names:
+                raise ValueError(f'directory payload holds the output of another attempt: {names} for generation {p.get("gen")}')
         elif kind == 'inmemory':
             p = value.payload
         elif kind in ('generator0', 'lon0', 'dir0'):
@@ -523,8 +532,7 @@ class World:
         for path, payload in files.items():
             os.makedirs(os.path.dirname(path), exist_ok=True)
             text = _dump(payload, path).replace('{CFG}', base)
-            with open(path, 'w') as f:
-                f.write(text)
+            _write_if_changed(path, text)
         return base
 
     # ------------------------------------------------------------------ contexts
@@ -552,8 +560,7 @@ class World:
             name = ctx.get('file') or f'ctx{counter[0]}.{k}'
             path = os.path.join(self.config_dir(vid), 'contexts', name)
             os.makedirs(os.path.dirname(path), exist_ok=True)
-            with open(path, 'w') as f:
-                f.write(_dump(data, path))
+            _write_if_changed(path, _dump(data, path))
             return path if not ctx.get('as_path_obj') else Path(path)
         if k == 'object':
             return Context(data=data, name=ctx.get('name', 'ctxobj'))
@@ -635,6 +642,20 @@ class World:
 
     def dispose(self):
         sys.modules.pop(self.modname, None)
+
+
+def _write_if_changed(path, text):
+    """config files are shared by forked workers: never truncate a file another process may be reading"""
+    try:
+        with io.open(path) as f:
+            if f.read() == text:
+                return
+    except FileNotFoundError:
+        pass
+    tmp = f'{path}.{os.getpid()}.tmp'
+    with io.open(tmp, 'w') as f:
+        f.write(text)
+    os.replace(tmp, path)
 
 
 def _is_task(x):
